@@ -8,8 +8,9 @@ from . import core, env, tlc
 
 
 def registry():
-    from . import p_binary, p_layout, p_file, p_cuts, p_writer, p_schema, p_logical, p_data, p_resolve, p_json, p_load, p_forms, p_session
+    from . import p_binary, p_layout, p_file, p_cuts, p_writer, p_schema, p_logical, p_data, p_resolve, p_json, p_load, p_forms, p_session, p_threads
     return {
+        "C18": p_threads.run_c18,
         "C17": p_session.run_c17,
         "C12": p_forms.run_c12,
         "C19": p_load.run_c19,
